@@ -568,10 +568,19 @@ impl Gen {
       }
     }
     let req = if r < 30 {
-      let ob = if self.rng.chance(1, 5) { Some(self.nid()) } else { None };
+      let ob = if self.rng.chance(1, 5) {
+        if self.rng.chance(1, 4) { Some(format!("{}@{}", me, self.cfg.domain)) } else { Some(self.nid()) }
+      } else {
+        None
+      };
       Req::Join { id, chan, ob }
     } else if r < 42 {
-      let ob = if self.rng.chance(1, 4) { Some(self.nid()) } else { None };
+      let ob = if self.rng.chance(1, 4) {
+        // naming oneself is the interesting corner of on_behalf
+        if self.rng.chance(1, 3) { Some(format!("{}@{}", me, self.cfg.domain)) } else { Some(self.nid()) }
+      } else {
+        None
+      };
       Req::Leave { id, chan, ob }
     } else if r < 58 {
       let qos = match self.rng.below(30) {
